@@ -31,6 +31,12 @@ import (
 // Get…/Begin invoke (or static call) returning a vocab interface, which is nil
 // when the member is absent / the list is empty.
 func nilableSource(v ssa.Value) (string, bool) {
+	// the value streams.ToType returns is nil whenever its error is not (unknown type, garbage)
+	if ex, ok := v.(*ssa.Extract); ok && ex.Index == 0 {
+		if c, ok := ex.Tuple.(*ssa.Call); ok && staticName(c) == "streams.ToType" {
+			return "streams.ToType", true
+		}
+	}
 	c, ok := v.(*ssa.Call)
 	if !ok {
 		return "", false
@@ -111,6 +117,14 @@ func nilUses(d *derefSummary, fn *ssa.Function, v ssa.Value) []nilUse {
 					for ai, a := range cc.Args {
 						if a == val && d.of(cal)[ai] {
 							out = append(out, nilUse{ref, "passed to " + fname(cal) + " (which uses it unconditionally)"})
+						}
+					}
+				} else if cal := cc.StaticCallee(); cal != nil && cal.Pkg != nil && cal.Pkg.Pkg.Path() == modPath+"/streams" && !cc.IsInvoke() {
+					// the functions of package streams that take a vocab.Type (the hierarchy
+					// predicates, Serialize) call a method on it first thing
+					for _, a := range cc.Args {
+						if a == val && isVocabIface(a.Type()) {
+							out = append(out, nilUse{ref, "passed to streams." + cal.Name() + " (which calls a method on it)"})
 						}
 					}
 				}
@@ -392,6 +406,16 @@ func checkC11(res *Result) {
 					if ff.has(u.ins, v, fNONNIL, "") {
 						res.ok("C11-R1", name, p.pos(u.ins), getter+"() result used as "+u.what+" under a nil guard")
 						continue
+					}
+					if ex, isEx := v.(*ssa.Extract); isEx && getter == "streams.ToType" {
+						// ToType yields a value whenever its error is nil: follow the paths from
+						// the call to this use, remembering the outcome of each test on the error
+						if tc, isCall := ex.Tuple.(*ssa.Call); isCall {
+							if ee := extractOf(tc, 1); ee != nil && errNilOnAllPathsTo(fn, tc, ee, u.ins) {
+								res.ok("C11-R1", name, p.pos(u.ins), "streams.ToType() result used as "+u.what+" only on paths where its error is nil")
+								continue
+							}
+						}
 					}
 					key := name + "|" + getter
 					if pc := preByKey[key]; pc != nil {
